@@ -231,6 +231,27 @@ def rule_slot(ctx, rep, rid="C15.slot"):
         rep.check(ok, rid, "alloc.takes-free-slot", "a slot is taken only when its alloc flag is 0", "arena_alloc can hand out a slot that is already allocated (two threads share one reader word)", [s.where()])
         used = [x for x in pat.stores(al, "registry_chunk.used")]
         rep.must_pass(rid, "alloc.used++", al, [s], None, lambda i: i in used, to_exit=True, what="used is incremented with every allocation")
+    # the search for a free slot looks at every slot of the chunk, 0 .. capacity-1: slots freed by exited threads are anywhere (also below
+    # `used`), and a search that skips some of them never reuses those slots and grows the registry instead
+    k = 0
+    for ph, inits, steps, stays in pat.counted_loops(al):
+        cap = [(a, t) for a, t in stays if a[1] == ("phi", ph.id) and a[2][0] == "load" and a[2][1].endswith("registry_chunk.capacity")]
+        if not cap:
+            continue
+        k += 1
+        where = [cap[0][1].where()]
+        if inits == [0]:
+            rep.ok(rid, "alloc.search-from-0", "the free-slot search starts at slot 0")
+        elif inits and all(x is not None for x in inits):
+            rep.bad(rid, "alloc.search-from-0", "the free-slot search starts at slot %s: lower slots are never handed out again" % inits, where)
+        else:
+            v0 = [ir.expr_str(ir.expr(al, v, 3)) for v, blk in ph.d["inc"] if not al.bdom(ph.blk.id, blk)]
+            rep.bad(rid, "alloc.search-from-0", "the free-slot search starts at %s instead of slot 0: a slot freed by an exited thread below that index is never reused while younger threads live - "
+                    "the registry grows although free slots exist" % v0, where)
+        okstep = bool(steps) and all(e[0] == "bin" and e[1] == "add" and e[3] == ("c", 1) and e[2] == ("phi", ph.id) for e in steps)
+        rep.check(okstep, rid, "alloc.search-step-1", "the search visits every slot", "the search advances by %s" % [ir.expr_str(e) for e in steps], where)
+        rep.check(all(a[0] in ("ult", "ne", "slt") for a, t in cap), rid, "alloc.search-below-capacity", "the search continues while index < capacity", "the search continues while index %s capacity" % cap[0][0][0], where)
+    pat.require(k >= 1, "arena_alloc: slot search loop not recognised")
     want = {"urcu_bp_reader.ctr": 0, "urcu_bp_reader.tid": 0, "urcu_bp_reader.alloc": 0}
     for fld, val in want.items():
         st = [s for s in pat.stores(cl, fld) if ir.const_of(cl, s.args[0]) == val]
